@@ -65,7 +65,7 @@ fforms! {
     SumOwned: All; SumRef: All; ProductOwned: All; ProductRef: All;
     FDouble: ArkOnly; FDoubleInPlace: ArkOnly; FNegInPlace: ArkOnly; FSquare: ArkOnly; FSquareInPlace: ArkOnly;
     FInverse: ArkOnly; FInverseInPlace: ArkOnly; FPow: ArkOnly; FSumOfProducts: ArkOnly; FFrobenius: ArkOnly;
-    FZeroOne: ArkOnly;
+    FZeroOne: ArkOnly; FBasePrime: ArkOnly; FBatchInverse: ArkOnly; FLegendreSqrt: ArkOnly;
     Power: FqOnly; CondSelect: FqOnly; CondAssign: FqOnly; CondSwap: FqOnly; CtEq: FqOnly;
 }
 
@@ -185,7 +185,9 @@ pub fn model_step(f: &Fld, acc: &N, s: &Step) -> MOut {
         FDouble | FDoubleInPlace => MOut::Val(f.add(acc, acc)),
         FPow | Power => MOut::Val(f.pow(acc, &crate::api::int_of_limbs(&s.limbs))),
         FSumOfProducts => MOut::Val(f.add(&f.mul(acc, &x), &f.mul(&y, acc))),
-        FFrobenius | FZeroOne | CtEq => MOut::Val(acc.clone()),
+        FFrobenius | FZeroOne | CtEq | FLegendreSqrt => MOut::Val(acc.clone()),
+        FBasePrime => MOut::Val(f.mul(acc, &x)),
+        FBatchInverse => MOut::Val(if x.is_zero() { N::zero() } else { acc.clone() }),
         CondSelect | CondAssign | CondSwap => MOut::Val(if s.flag { x } else { acc.clone() }),
     }
 }
@@ -357,6 +359,31 @@ macro_rules! ark_forms {
                 let mut a = acc;
                 a.frobenius_map_in_place(3);
                 Some(Out::Val(a))
+            }
+            FBasePrime => {
+                // the prime field is its own base prime field: all of these are the identity / plain products
+                let elems: Vec<$T> = acc.to_base_prime_field_elements().collect();
+                let back = <$T as Field>::from_base_prime_field_elems(&elems);
+                let ok = elems.len() == 1 && back == Some(acc) && <$T as Field>::from_base_prime_field(acc) == acc && <$T as Field>::from_base_prime_field_elems(&[acc, x]).is_none() && <$T as Field>::extension_degree() == 1;
+                Some(if ok { Out::Val(acc * x) } else { Out::Bad("to/from_base_prime_field_elems is not the identity".into()) })
+            }
+            FBatchInverse => {
+                // ark_ff::batch_inversion (Montgomery's trick over this field's mul / inverse), zeros skipped
+                let mut v = vec![acc, x, y, <$T>::ZERO, acc * x];
+                ark_ff::batch_inversion(&mut v);
+                let want = |t: $T| t.inverse().unwrap_or(<$T>::ZERO);
+                let ok = v[0] == want(acc) && v[1] == want(x) && v[2] == want(y) && v[3] == <$T>::ZERO && v[4] == want(acc * x);
+                Some(if ok { Out::Val(v[1] * x * acc) } else { Out::Bad("batch_inversion disagrees with inverse()".into()) })
+            }
+            FLegendreSqrt => {
+                // legendre / sqrt of a square: consistent, and the root squares back
+                let sq = acc.square();
+                let l = sq.legendre();
+                let ok = if sq.is_zero() { l.is_zero() } else { l.is_qr() } && matches!(sq.sqrt(), Some(r) if r.square() == sq) && {
+                    let mut t = sq;
+                    t.sqrt_in_place().is_some() && t.square() == sq
+                };
+                Some(if ok { Out::Val(acc) } else { Out::Bad("legendre / sqrt of a square inconsistent".into()) })
             }
             FZeroOne => {
                 let z = acc.is_zero() == (acc == <$T>::ZERO) && acc.is_one() == (acc == <$T>::ONE) && <$T>::zero() == <$T>::ZERO && <$T>::one() == <$T>::ONE && <$T>::default() == <$T>::ZERO;
